@@ -433,6 +433,16 @@ enum Confirm {
 
 fn confirm(path: &Path, spec: &ShardSpec, v: &ViolRec) -> Confirm {
     let bin = bin_for(&spec.profile);
+    if v.kind == "diff" {
+        for _ in 0..2 {
+            match Command::new(bin_for("chk")).arg("replay").arg(path).arg("--quiet").stdin(Stdio::null()).output() {
+                Ok(o) if o.status.code() == Some(1) => {}
+                Ok(o) => return Confirm::Diverged(format!("differential replay gave exit {:?}", o.status.code())),
+                Err(e) => return Confirm::Diverged(format!("cannot run replay: {}", e)),
+            }
+        }
+        return Confirm::Reproduced;
+    }
     let runs = if v.kind == "crash" || v.kind == "hang" { 1 } else { 2 };
     let mut sigs = vec![];
     for _ in 0..runs {
